@@ -12,7 +12,7 @@ import capstone
 
 from symx.core import Rope
 
-FALLS_THROUGH = ("o", "call", "icall", "jcc", "lea", "sys")
+FALLS_THROUGH = ("o", "call", "icall", "jcc", "lea", "sys", "rcall")
 
 
 class Item:
@@ -249,6 +249,16 @@ class Listing:
             elif it.kind == "call":
                 tgt = self._target(it.target)
                 edges.append((it.blk, "call", tgt, False, True))
+                if ft is not None and not tgt.startswith("ext:"):
+                    f = self.block_func.get(tgt)
+                    if f:
+                        call_sites.setdefault(f, [])
+                        if ft not in call_sites[f]:
+                            call_sites[f].append(ft)
+            elif it.kind == "rcall":
+                # an indirect call whose target the analysis resolved: Call edge with direct=False to the function's block
+                tgt = self._target(it.target)
+                edges.append((it.blk, "call", tgt, False, False))
                 if ft is not None and not tgt.startswith("ext:"):
                     f = self.block_func.get(tgt)
                     if f:
